@@ -17,3 +17,5 @@ int cmd (string arg) {
   return 1;
 }
 void net_dead () { VL ("t netdead " + oid); run ("netdead"); }
+// write_prompt(): applied by print_prompt() after every served line unless an input_to() is pending
+void write_prompt () { VL ("t prompt " + oid); run ("prompt"); write ("> "); }
